@@ -45,9 +45,33 @@ def d2h(x):
 def f2h(x):
     return "%08x" % struct.unpack(">I", struct.pack(">f", x))[0]
 
+def hexfloat(s):
+    """exact value of a C `%La` hex-float string (long double output of the harness) as a Fraction; inf/nan as floats"""
+    t = s.strip().lower()
+    if t in ("nan", "-nan"):
+        return float("nan")
+    if t in ("inf", "-inf", "infinity", "-infinity"):
+        return float("-inf") if t[0] == "-" else float("inf")
+    m = re.fullmatch(r"(-?)0x([0-9a-f]*)\.?([0-9a-f]*)p([-+]?\d+)", t)
+    if not m:
+        raise ValueError(s)
+    mant = int((m.group(2) + m.group(3)) or "0", 16)
+    e = int(m.group(4)) - 4 * len(m.group(3))
+    v = Fraction(mant) * (Fraction(2) ** e)
+    return -v if m.group(1) else v
+
+def isbad(x):
+    """NaN or infinity (finite values may be floats or exact Fractions)"""
+    return isinstance(x, float) and (math.isnan(x) or math.isinf(x))
+
+def ldexp_any(x, k):
+    return x * (Fraction(2) ** k) if isinstance(x, Fraction) else math.ldexp(x, k)
+
 def h2x(s):
     if s == "nan":
         return float("nan")
+    if "x" in s or s in ("inf", "-inf"):
+        return hexfloat(s)
     if len(s) == 16:
         return struct.unpack(">d", struct.pack(">Q", int(s, 16)))[0]
     return struct.unpack(">f", struct.pack(">I", int(s, 16)))[0]
@@ -78,7 +102,9 @@ def f32_round(x, up):
 
 def I(x):
     """exact fixed-point integer x * 2^S_EXP of a finite double"""
-    n, d = x.as_integer_ratio()
+    n, d = (x.numerator, x.denominator) if isinstance(x, Fraction) else x.as_integer_ratio()
+    if S % d:
+        return (n * S) // d
     return n * (S // d)
 
 
@@ -166,6 +192,7 @@ def spectrum(rng, n, kind):
 def gen_sym(ctx):
     """list of (type, n, matrix rows, tags)"""
     rng = ctx.rng("sym")
+    lrng = ctx.rng("sym-l")                   # separate stream: thinning the long double cases does not shift the other cases
     out = []
     per = 6 if ctx.quick else 60
     def add(ty, A, kind, k=0):
@@ -179,16 +206,18 @@ def gen_sym(ctx):
                     A[i][j] = A[j][i]
         if any(math.isinf(x) or math.isnan(x) for r in A for x in r):
             return None
-        lo, hi = (1e-150, 1e150) if ty == "d" else (1e-18, 1e18)       # the property's range of magnitudes (squares must not under/overflow)
+        lo, hi = (1e-150, 1e150) if ty != "f" else (1e-18, 1e18)       # the property's range of magnitudes (squares must not under/overflow)
         if any(x != 0 and not (lo <= abs(x) <= hi) for r in A for x in r):
             return None
+        if ty == "l" and (n > 4 or (kind != "corpus" and lrng.random() < 0.5)):
+            return None                      # long double: entries are doubles (exact), closed forms n <= 3 and one LAPACK size; thinned
         out.append({"ty": ty, "n": n, "A": A, "kind": kind, "k": k})
         return len(out) - 1
     def scales(ty):
-        if ty == "d":
+        if ty != "f":
             return [rng.choice([-498, -400, -250, -100, -60, -47, -46, -45, -30, 30, 100, 250, 400, 498]), rng.randint(-498, 498)]
         return [rng.choice([-60, -50, -40, -24, -23, -22, -10, 10, 30, 60]), rng.randint(-60, 60)]
-    for ty in ("d", "f"):
+    for ty in ("d", "f", "l"):
         for n in range(1, 7):
             for kind in ("distinct", "positive", "repeated", "clustered", "rankdef"):
                 for _ in range(per):
@@ -259,7 +288,7 @@ def gen_sym(ctx):
                 if j is not None and base is not None:
                     out[j]["base"] = base
     reps = 1 if ctx.quick else 6
-    for ty in ("d", "f"):
+    for ty in ("d", "f", "l"):
         ival = lambda: float(rng.choice([-5, -3, -2, -1, 1, 2, 3, 4, 5]))
         rval = lambda: rng.uniform(0.1, 2) * rng.choice([1, -1])
         for rep in range(reps):
@@ -315,7 +344,7 @@ def gen_sym(ctx):
                                 A[i][j] = A[j][i]
                         add_all(ty, A, "structN:arrow/tridiagonal:" + vk)
     # corpus: the DESIGN section 5 witnesses and the pinned tests' matrices
-    for ty in ("d", "f"):
+    for ty in ("d", "f", "l"):
         for A in ([[2e-20, 1e-20], [1e-20, 2e-20]], [[2.0, 1.0], [1.0, 2.0]], [[1.0, 0.0], [0.0, 1.0]], [[0.0, 1.0], [1.0, 0.0]],
                   [[1.0, 0.0], [0.0, 0.0]], [[0.0, 0.0], [0.0, 1.0]], [[1.01, 0.0], [0.0, 1.0]], [[0.0, 0.0], [0.0, 0.0]],
                   [[1.0, 1e-9], [1e-9, 1.0]],
@@ -348,7 +377,7 @@ def load_corpus():
     return sc, nc
 
 def sym_case_line(c):
-    h = d2h if c["ty"] == "d" else f2h
+    h = f2h if c["ty"] == "f" else d2h
     return "sym %s %d %s" % (c["ty"], c["n"], " ".join(h(x) for r in c["A"] for x in r))
 
 
@@ -517,21 +546,37 @@ def gen_nonsym(ctx):
             Sm, Si = unimodular(rng, n)
             A = matmul(matmul(Sm, D), Si)
             k = 0 if rng.random() < 0.5 else rng.choice([-300, -100, -20, 20, 100, 300])
-            for kind in ("dyn1", "dyn0", "fm"):
+            for kind in ("dyn1", "dyn0", "fm", "dynl1"):
                 add(kind, A, spec, k)
+            if k == 0:                                   # float variants: integer entries are exact in binary32
+                for kind in ("dynf1", "dynf0", "fmf"):
+                    add(kind, A, spec, 0)
             # symmetric input through the non-symmetric routine
             if rng.random() < 0.3:
                 Bm = matmul(Sm, transpose(Sm))
                 add("dyn1", Bm, [], 0)
+    # larger sizes (DynamicMatrix only: no template instantiation needed), the same output objects re-used across sizes
+    for n in (7, 9, 12, 3, 10, 1, 8):
+        for _ in range(1 if ctx.quick else 8):
+            D = [[0] * n for _ in range(n)]
+            spec = []
+            for i in range(n):
+                a = rng.randint(-6, 6); D[i][i] = a; spec.append((a, 0))
+            Sm, Si = unimodular(rng, n)
+            A = matmul(matmul(Sm, D), Si)
+            add(rng.choice(["dyn1", "dyn0"]), A, spec, 0)
+            add("dyn1", A, spec, rng.choice([0, -40, 40]))
     return out
 
 def nonsym_case_line(c):
-    return "nonsym %s %d %s" % (c["routine"], c["n"], " ".join(d2h(x) for r in c["A"] for x in r))
+    h = f2h if c["routine"] in ("dynf0", "dynf1", "fmf") else d2h
+    return "nonsym %s %d %s" % (c["routine"], c["n"], " ".join(h(x) for r in c["A"] for x in r))
 
 
 # ------------------------------------------------------------------------------------------------ oracles
-def tolerances(ty, n, closed):
-    eps = Fraction(1, 2 ** 52) if ty == "d" else Fraction(1, 2 ** 23)
+def tolerances(ty, n, closed, lapack=False):
+    """eps of the arithmetic that produced the numbers: K, except that LAPACK runs in double for K = long double"""
+    eps = {"d": Fraction(1, 2 ** 52), "f": Fraction(1, 2 ** 23), "l": Fraction(1, 2 ** 52) if lapack else Fraction(1, 2 ** 63)}[ty]
     if n == 3 and closed:
         se = Fraction(math.isqrt(int(eps * 2 ** 120)), 2 ** 60)
         tau = 8 * se
@@ -548,6 +593,8 @@ def parse_sym_out(line, n):
             continue
         if tk[0] in ("input-unchanged", "INPUT-MODIFIED"):
             res["input"] = tk[0]; continue
+        if tk[0] == "alias":
+            res["alias"] = " ".join(tk[1:]); continue
         name = tk[0]
         if len(tk) > 1 and tk[1] == "EXC":
             res[name] = ("EXC", " ".join(tk[2:])); continue
@@ -573,12 +620,12 @@ def ratio(a, b):
 def norm_inf_I(AI):
     return max(sum(abs(x) for x in r) for r in AI)
 
-def check_decomp(ty, n, A, w, Vv, closed, want_vecs):
+def check_decomp(ty, n, A, w, Vv, closed, want_vecs, lapack=False):
     """the property applied to one (eigenvalues, eigenvectors) output.  Returns list of (what, detail)."""
     bad = []
-    if any(math.isnan(x) or math.isinf(x) for x in w) or (Vv and any(math.isnan(x) or math.isinf(x) for r in Vv for x in r)):
+    if any(isbad(x) for x in w) or (Vv and any(isbad(x) for r in Vv for x in r)):
         return [("nonfinite", "NaN/inf in the output")]
-    tol = tolerances(ty, n, closed)
+    tol = tolerances(ty, n, closed, lapack)
     AI = [[I(x) for x in r] for r in A]
     nA = norm_inf_I(AI)
     wI = [I(x) for x in w]
@@ -626,6 +673,10 @@ def oracle_sym(c, line):
         return [("C08:sym:crash", line)], secs
     if secs.get("input") != "input-unchanged":
         out.append(("C08:sym:input-modified", line[-40:]))
+    if "alias" in secs and "DIFF" in secs["alias"]:
+        out.append(("C08:sym:alias:n=%d" % n, "eigenvector matrix aliasing the input matrix gives a different result than separate objects: %s" % secs["alias"]))
+    elif "alias" not in secs and "lvecs" in secs:
+        out.append(("C08:sym:alias:n=%d:missing" % n, "alias section missing"))
     for name in ("vals", "vecs", "lvals", "lvecs"):
         if name not in secs:
             out.append(("C08:sym:%s:n=%d:missing" % (name, n), "section missing")); continue
@@ -634,7 +685,7 @@ def oracle_sym(c, line):
             out.append(("C08:sym:%s:n=%d:exception" % (name, n), "%s %s" % s)); continue
         w, Vv = s
         closed = name in ("vals", "vecs") and n <= 3
-        for what, detail in check_decomp(ty, n, A, w, Vv, closed, name in ("vecs", "lvecs")):
+        for what, detail in check_decomp(ty, n, A, w, Vv, closed, name in ("vecs", "lvecs"), lapack=not closed):
             sig = "C08:sym:%s:n=%d:%s" % (name, n, what)
             if n == 2 and closed and Vv == [[1.0, 0.0], [0.0, 1.0]] and what in ("residual", "orth", "unit"):
                 sig += ":identity-branch"
@@ -645,10 +696,10 @@ def oracle_sym(c, line):
     for a, b in (("vals", "vecs"), ("lvals", "lvecs"), ("vecs", "lvecs")):
         sa, sb = secs.get(a), secs.get(b)
         if sa and sb and sa[0] not in ("EXC", "BAD") and sb[0] not in ("EXC", "BAD"):
-            if any(math.isnan(x) or math.isinf(x) for x in sa[0] + sb[0]):
+            if any(isbad(x) for x in sa[0] + sb[0]):
                 continue
             closed = n == 3
-            tol = tolerances(ty, n, closed)
+            tol = tolerances(ty, n, closed, lapack=(n > 3 or a.startswith("l") or b.startswith("l")))
             nA = norm_inf_I([[I(x) for x in r] for r in A])
             dmax = max(abs(I(x) - I(y)) for x, y in zip(sa[0], sb[0]))
             if dmax * tol["agree"].denominator > tol["agree"].numerator * nA:
@@ -667,11 +718,11 @@ def oracle_scaling(c, secs, cb, secsb):
         sa, sb = secs.get(name), secsb.get(name)
         if not sa or not sb or sa[0] in ("EXC", "BAD") or sb[0] in ("EXC", "BAD"):
             continue
-        if any(math.isnan(x) or math.isinf(x) for x in sa[0] + sb[0]):
+        if any(isbad(x) for x in sa[0] + sb[0]):
             continue
-        tol = tolerances(ty, n, name in ("vals", "vecs") and n <= 3)
+        tol = tolerances(ty, n, name in ("vals", "vecs") and n <= 3, lapack=not (name in ("vals", "vecs") and n <= 3))
         try:
-            dmax = max(abs(I(x) - I(math.ldexp(y, k))) for x, y in zip(sa[0], sb[0]))
+            dmax = max(abs(I(x) - I(ldexp_any(y, k))) for x, y in zip(sa[0], sb[0]))
         except (OverflowError, ValueError):
             continue
         if dmax * tol["agree"].denominator > 2 * tol["agree"].numerator * nA:
@@ -698,12 +749,22 @@ def oracle_nonsym(c, line):
     if line.startswith(("EXC", "CRASH", "HANG", "NOT-RUN", "BAD")):
         return [("C08:nonsym:%s:exception" % c["routine"], line)]
     parts = line.split(" | ")
+    if parts[-1] in ("reuse-ok", "REUSE-DIFF"):
+        if parts[-1] == "REUSE-DIFF":
+            out.append(("C08:nonsym:%s:reuse" % c["routine"], "re-using the output objects of a previous call (other size, stale contents) changes the result"))
+        parts = parts[:-1]
+    elif c["routine"].startswith("dyn"):
+        out.append(("C08:nonsym:%s:reuse:missing" % c["routine"], "reuse verdict missing"))
+    flt = c["routine"] in ("dynf0", "dynf1", "fmf")
+    eps_val = Fraction(1, 2 ** 23) if c["routine"] == "fmf" else Fraction(1, 2 ** 52)          # sgeev; dyn* always calls dgeev
+    eps_vec = Fraction(1, 2 ** 23) if flt else Fraction(1, 2 ** 52)                             # DynamicVector<float> stores rounded vectors
+    tol_cp = Fraction(1, 10 ** 3) if c["routine"] == "fmf" else Fraction(1, 10 ** 9)
     try:
         ev = [h2x(x) for x in parts[0].split()[1:]]
         vv_all = [h2x(x) for x in parts[1].split()[1:]] if len(parts) > 1 else None
     except (ValueError, struct.error):
         return [("C08:nonsym:%s:malformed" % c["routine"], line[:200])]
-    if len(ev) != 2 * n or any(math.isnan(x) or math.isinf(x) for x in ev):
+    if len(ev) != 2 * n or any(isbad(x) for x in ev):
         return [("C08:nonsym:%s:malformed" % c["routine"], line[:200])]
     lam = [(ev[2 * i], ev[2 * i + 1]) for i in range(n)]
     nA = max(sum(abs(x) for x in r) for r in A) or 1.0
@@ -718,19 +779,19 @@ def oracle_nonsym(c, line):
         az = max(Fraction(abs(re) + abs(im)), Fraction(nA))        # scale: max(|lambda|, ||A||): a zero eigenvalue is judged relative to ||A||
         for k in range(n + 1):
             mag += abs(cp[k]) * az ** k
-        if abs(pr) + abs(pi_) > Fraction(1, 10 ** 9) * mag:
-            out.append(("C08:nonsym:%s:spectrum" % c["routine"], "lambda=%r%+rj: |p(lambda)| = %.3g * sum|c_k| max(|lambda|,||A||)^k (tolerance 1e-9)" % (re, im, float((abs(pr) + abs(pi_)) / mag) if mag else 0)))
+        if abs(pr) + abs(pi_) > tol_cp * mag:
+            out.append(("C08:nonsym:%s:spectrum" % c["routine"], "lambda=%r%+rj: |p(lambda)| = %.3g * sum|c_k| max(|lambda|,||A||)^k (tolerance %s)" % (re, im, float((abs(pr) + abs(pi_)) / mag) if mag else 0, "1e-3" if c["routine"] == "fmf" else "1e-9")))
             break
     tr = sum(Fraction(A[i][i]) for i in range(n))
-    if abs(sum(Fraction(l[0]) for l in lam) - tr) > Fraction(64 * n, 2 ** 52) * Fraction(nA) * 16 or abs(sum(Fraction(l[1]) for l in lam)) > Fraction(64 * n, 2 ** 52) * Fraction(nA) * 16:
+    if abs(sum(Fraction(l[0]) for l in lam) - tr) > 64 * n * eps_val * Fraction(nA) * 16 or abs(sum(Fraction(l[1]) for l in lam)) > 64 * n * eps_val * Fraction(nA) * 16:
         out.append(("C08:nonsym:%s:trace" % c["routine"], "sum of eigenvalues differs from the trace"))
     if len(parts) > 1:
         vv = vv_all
-        if len(vv) != n * n or any(math.isnan(x) or math.isinf(x) for x in vv):
+        if len(vv) != n * n or any(isbad(x) for x in vv):
             return out + [("C08:nonsym:dyn1:malformed", line[:200])]
         Vv = [vv[i * n:(i + 1) * n] for i in range(n)]
         AF = [[Fraction(x) for x in r] for r in A]
-        tol = Fraction(64 * n * 16, 2 ** 52) * Fraction(nA)
+        tol = 64 * n * 16 * eps_vec * Fraction(nA)
         def resid(i, left):
             re, im = lam[i]
             if im == 0:
